@@ -214,7 +214,9 @@ class Interp:
         if op == "BitOr":
             # low | (high << s) with low < 2^s: disjoint bits, so it is the sum
             for x, y in ((a, b), (b, a)):
-                if y.parts and y.parts[0] is None and x.lo >= 0 and x.hi < (1 << y.parts[2]):
+                if y.parts and y.parts[0] is None and x.lo >= 0:
+                    if x.hi >= (1 << y.parts[2]):
+                        self.failed.append((line, "the low part of `low | (high << %d)` can reach %d: it overlaps the high part" % (y.parts[2], x.hi)))
                     r = AV(x.lo + y.lo, x.hi + y.hi, None)
                     r.parts = (x.copy(), y.parts[1], y.parts[2])
                     return r
